@@ -40,7 +40,7 @@ def _inch(v, unit):
          engine_opts={'div_check': False},
          bounds='loop-free: 3 focal planes x 9 click units x bare/explicit click sizes x calibration/target distance units (quick: rotating; '
                 'thorough: all calibration units for SFP); all click sizes with angle in (0, 0.5] rad (tangent units: nominal and effective '
-                'click <= 1e-3 rad), distances in (0,1e7] inch, magnification in [0.1,100], corrections of either sign in [-1.5,1.5] rad',
+                'click <= 1e-3 rad), distances in (0,1e7] inch (target distance for FFP / LWIR: [0,1e7], exactly 0 included), magnification in [0.1,100], corrections of either sign in [-1.5,1.5] rad',
          assumptions=['floats modelled as reals; click-count tolerance 1e-9 relative (tangent-based click units: 1e-6, small-angle)',
                       'effective SFP click below one turn (Angular.to_raw wraps above 2*pi)'],
          stubs=['atan/tan summarised with enclosures x - x^3/3 <= atan x <= x and x <= tan x <= x + x^3/2 (0 <= x <= 0.5)'])
@@ -55,7 +55,8 @@ def c19_clicks(ctx, plane, cunit, bare, sfunit, tdunit, td_bare, adjunit='Radian
     small = 1e-3 if kind == 'tan' else 0.5
     ctx.assume((rad_h <= small) & (rad_v <= small) & (rad_h > 0) & (rad_v > 0))
     sf = ctx.real('calibration', 1e-3, 1e7)
-    td = ctx.real('target', 1e-3, 1e7)
+    # FFP / LWIR clicks do not depend on the target distance: every distance including exactly 0 (SFP divides by it: > 0)
+    td = ctx.real('target', 1e-3 if plane == 'SFP' else 0, 1e7)
     mag = ctx.real('magnification', 0.1, 100)
     drop = ctx.real('drop_adj', -1.5, 1.5)
     wind = ctx.real('windage_adj', -1.5, 1.5)
